@@ -105,11 +105,10 @@ def decOfInt (i : Int) : Dec :=
 
 /-- `format(d, '0{w}f')` (the encoder's rendering of a decimal element): fixed-point notation of the exact
     value, the sign first, then zero padding to width `w`; specials (NaN, Infinity) are padded with
-    blanks on the left instead.  `w = 0` makes the format string '00f', which Python refuses
-    (`none` = ValueError). -/
+    blanks on the left instead.  For `w = 0` the encoder leaves the width out ('0f': no padding) — before
+    repo fix 43f0702 it built '00f', which Python refuses with ValueError (see `Legacy.fmtDecFBefore`).
+    `none` (= ValueError) is kept in the type for that legacy reading; it no longer occurs. -/
 def fmtDecF (w : Nat) (d : Dec) : Option Text :=
-  if w = 0 then none
-  else
     let sign : Text := if d.neg then [45] else []
     let chars (ds : List Nat) : Text := ds.map (48 + ·)
     match d.exp with
@@ -147,7 +146,7 @@ def strOf (s : String) : Text := s.toList.map Char.toNat
 #guard (pyDecimal asciiClasses (strOf "sNaN12")).bind (fmtDecF 8) == some (strOf "  sNaN12")
 #guard (pyDecimal asciiClasses (strOf "-Infinity")).bind (fmtDecF 8) == some (strOf "-Infinity")
 #guard (pyDecimal asciiClasses (strOf "123456789012")).bind (fmtDecF 8) == some (strOf "123456789012")
-#guard (pyDecimal asciiClasses (strOf "12.5")).bind (fmtDecF 0) == none
+#guard (pyDecimal asciiClasses (strOf "12.5")).bind (fmtDecF 0) == some (strOf "12.5")
 
 #guard pyDecimal asciiClasses (strOf "0012.50") == some ⟨false, [1, 2, 5, 0], .fin (-2)⟩
 #guard pyDecimal asciiClasses (strOf " -00.00 ") == some ⟨true, [0], .fin (-2)⟩
